@@ -299,6 +299,31 @@ pub fn scenarios(tier: Tier) -> Vec<C09Scn> {
 				deferred: vec![1],
 			});
 		}
+		// deferred mode, the background task stalled while two payments move (several operations queue up for one
+		// channel), and the store turning asynchronous part-way through the flush that finally executes them
+		v.push(C09Scn {
+			name: format!("{}-ab-deferred-flush-sync-then-async", n),
+			ct,
+			nodes: 2,
+			ops: vec![
+				Op::Send { from: 0, hops: vec![(1, 0)], amount_msat: 30_000_000, policy: ClaimPolicy::Claim },
+				Op::Send { from: 1, hops: vec![(0, 0)], amount_msat: 20_000_000, policy: ClaimPolicy::Claim },
+			],
+			ops_first: true,
+			dev: Deviations {
+				reorder: None,
+				early_op: None,
+				async_persist: None,
+				async_after: Some(1),
+				hold_manager: Some(1),
+				complete_reorder: Some(1),
+				..Deviations::default()
+			},
+			k: if th { 3 } else { 2 },
+			async_from_start: vec![],
+			max_disconnects: 0,
+			deferred: vec![0, 1],
+		});
 		v.push(C09Scn {
 			name: format!("{}-ab-open-flow-deferred", n),
 			ct,
@@ -365,6 +390,8 @@ pub fn run(args: &Args) -> i32 {
 				"c09-fulfill-checked",
 				"deferred-flush",
 				"deferred-operations-queued-while-background-task-stalled",
+				"store-turns-async-inside-a-deferred-flush",
+				"deferred-flush-of-several-operations",
 			],
 		);
 	} else {
